@@ -295,7 +295,7 @@ func solveFallback(sc *Script, opt solveOpts, dir string, idx []int, results map
 					}
 					ms := opt.fallbackMs
 					if r.IsCover {
-						ms = 1500
+						ms = coverMs
 					}
 					o, s := runSolver(ctx, sp, file, ms)
 					ch <- res{sp.name, firstVerdict(o), o, s}
@@ -355,6 +355,9 @@ func solveFallback(sc *Script, opt solveOpts, dir string, idx []int, results map
 }
 
 var quickMsGlobal = 10000
+
+// coverMs: time limit of one vacuity (cover) query; raised by the thorough tier
+var coverMs = 1500
 
 func truncate(s string, n int) string {
 	if len(s) > n {
